@@ -523,6 +523,15 @@ func makePtrValue(tp reflect.Type, c uint64) interface{} {
 			return &PtrC{}
 		}
 		return &PtrC{Str: canaryStr(c), P: hookedCanary(c)}
+	case ptrTypes[3]:
+		if c == 0 {
+			return &PtrD{}
+		}
+		cp := hookedCanary(c)
+		d := &PtrD{I: cp, F: func() uint64 { return cp.ID + 1 }}
+		d.A[0].N, d.A[0].P = c, cp
+		d.A[1].N, d.A[1].P = c+1, cp
+		return d
 	case ptrRelType:
 		if c == 0 {
 			return &PtrRel{}
@@ -571,6 +580,20 @@ func readPtrValue(tp reflect.Type, p unsafe.Pointer) (c uint64, ok bool) {
 	case ptrTypes[2]:
 		v := (*PtrC)(p)
 		return chk(v.P, nil, false, v.Str, true, nil, false)
+	case ptrTypes[3]:
+		v := (*PtrD)(p)
+		c, ok := chk(v.A[0].P, nil, false, "", false, nil, false)
+		if v.A[0].P == nil {
+			return 0, v.A[1].P == nil && v.I == nil && v.F == nil
+		}
+		if !ok {
+			return c, false
+		}
+		ip, _ := v.I.(*Canary)
+		if v.A[1].P != v.A[0].P || ip != v.A[0].P || v.A[0].N != c || v.A[1].N != c+1 || v.F == nil || v.F() != c+1 {
+			return c, false
+		}
+		return c, true
 	case ptrRelType:
 		v := (*PtrRel)(p)
 		return chk(v.P, nil, false, "", false, nil, false)
